@@ -3,7 +3,10 @@ EXTENDS Session, TLC, Json
 EntrySet == {"solver", "permeate_composition", "separation_factor", "ideal_curve", "nonideal_curve", "ideal_iso", "ideal_noniso",
              "nonideal_iso", "nonideal_noniso", "fit", "fit_zero", "best_fit", "best_fit_zero", "measurements", "get_permeance",
              "activation_energy", "curve_metrics", "solver_other_model", "solver_other_basis", "ideal_iso_other_model",
-             "solver_nearby_T", "ideal_noniso_other_step"}
+             "solver_nearby_T", "ideal_noniso_other_step",
+             \* calls that FAIL are modelling calls too (an infeasible permeate side, a contradictory specification), and so are calls
+             \* on a caller-owned grid that contains the pure end points
+             "solver_infeasible", "solver_contradictory", "ideal_curve_ends", "ideal_curve_ends_other_model", "solver_ends"}
 ObjectSet == {"membrane", "mixture", "curve_set", "conditions", "measurements", "pervaporation", "builtins"}
 Done == Len(log) = MaxCalls /\ PrintT(<<"HISTORY", ToJson([j \in 1..Len(log) |-> log[j].entry])>>) /\ UNCHANGED vars
 SimSpec == Init /\ [][Next \/ Done]_vars
